@@ -180,6 +180,9 @@ func (x *Xlat) store(st *State, out *Outcomes, p Place, v *Term, pos token.Pos) 
 		return
 	case PVar:
 		x.set(st, p.key, x.coerce(v, p.typ))
+		if strings.HasPrefix(p.key, "G$") {
+			st.env["GW$"+p.key[2:]] = TTrue // ghost: this package-level variable has been written
+		}
 	case PHeap:
 		if s, ok := types.Unalias(p.typ).Underlying().(*types.Struct); ok {
 			for i := 0; i < s.NumFields(); i++ {
@@ -287,8 +290,10 @@ func (x *Xlat) place(st *State, fr *Frame, out *Outcomes, e ast.Expr) Place {
 			return PVar{"G$" + pkgShort(v.Pkg().Path()) + "." + v.Name(), v.Type()}
 		}
 		if _, ok := fr.lookupRefParam(v); ok {
-			// the pointer variable itself is not a value we model
-			x.unsupp(e.Pos(), "reference parameter %s used as a value", v.Name())
+			// the pointer variable itself: a non-nil address we do not model further
+			a := x.ctx.Named("addr$"+v.Name(), SRef)
+			x.ctx.constAxioms[a.Op] = []*Term{Not(Eq(a, TNull))}
+			return PValue{a, v.Type()}
 		}
 		// variable of an outer function not in scope chain (should not happen)
 		x.unsupp(e.Pos(), "variable %s not in scope", v.Name())
@@ -357,7 +362,17 @@ func (x *Xlat) selectPath(st *State, fr *Frame, out *Outcomes, base ast.Expr, pa
 	bt := info.TypeOf(base)
 	var cur Place
 	curT := bt
-	if pt, ok := types.Unalias(bt).Underlying().(*types.Pointer); ok {
+	if id, ok := ast.Unparen(base).(*ast.Ident); ok {
+		if v, ok := info.ObjectOf(id).(*types.Var); ok {
+			if p, ok := fr.lookupRefParam(v); ok {
+				// pointer variable bound by reference to a caller's struct
+				cur = p
+				curT = derefType(v.Type())
+			}
+		}
+	}
+	if cur != nil {
+	} else if pt, ok := types.Unalias(bt).Underlying().(*types.Pointer); ok {
 		r := x.eval(st, fr, out, base)
 		x.safety(st, out, "nil", Not(Eq(r, TNull)), pos, "nil dereference: "+x.src(base))
 		cur = PHeap{r, pt.Elem(), nil, pt.Elem()}
@@ -671,6 +686,20 @@ func (x *Xlat) evalMulti(st *State, fr *Frame, out *Outcomes, e ast.Expr) []*Ter
 
 func (x *Xlat) binop(st *State, out *Outcomes, op token.Token, l, r *Term, t types.Type, pos token.Pos) *Term {
 	if l.Sort != r.Sort {
+		// comparisons with nil
+		if l.Op == "null" && l.Sort == SRef {
+			l, r = r, l
+		}
+		if r.Op == "null" && r.Sort == SRef {
+			if l.Sort == SSlice {
+				c := Eq(SArr(l), IntLit(0))
+				if op == token.NEQ {
+					return Not(c)
+				}
+				return c
+			}
+			r = x.coerceSort(r, l.Sort)
+		}
 		l, r = coerce2(l, r)
 	}
 	switch op {
